@@ -6,6 +6,7 @@ FILE = "xh_C01.py"
 FUNCTIONS = ["BaseSimfile.serialize", "BaseCharts.serialize", "SMChart.serialize", "SMSimfile._parse", "SMChart._from_msd / from_msd / blank",
              "SMSimfile.__eq__ / SMChart.__eq__", "item_property", "simfile.loads / _detect_ssc (autodetect obligation, real tokenizer, concrete values)"]
 ASSUMPTIONS = [
+    "escapes_real[...] obligations: exhaustive concrete enumeration with the REAL msdparser serializer and lexer (not solver-decided; the parameter-level obligations replace MSDParameter by a recorder and cannot see escaping)",
     "msdparser is the environment: MSDParameter is replaced by the recording StubParam; the contract it stands for is itself discharged for values of <= 1 (thorough: 2) characters by the lexer_lemma obligation (contract: str(p) parses back to p for string components outside "
     "the escaping gaps the property excludes; rendering a non-string component raises AttributeError like the real serializer)",
     "values that are only moved/compared: arbitrary Unicode strings of length <= 3 (or None); scanned strings (multi-value split, chart-field strip): one symbolic string per obligation",
@@ -22,7 +23,10 @@ def obligations(tier):
         dict(name="multi_value", func="multi_value", timeout=T, bounds="ATTACKS/DISPLAYBPM value symbolic <=3 or None, the other from 5 representatives"),
         *[dict(name=f"chart_field[{i}]", func="chart_field", pre=f"i == {i}", timeout=T, bounds=f"chart field {i} symbolic <=2 stripped, 0..2 extra components <=2, 1..2 charts") for i in range(6)],
         dict(name="chart_attr_edit", func="chart_attr_edit", timeout=T, bounds="blank simfile + blank chart, one field set by attribute"),
-        *[dict(name=f"edit_step[op{i},k%2=={r}]", func="edit_step", pre=f"op == {i} and k % 2 == {r}", timeout=T, bounds=f"edit operation {i} (of 13: set/del by key, attribute, charts appended/removed/replaced/reversed, extra components assigned and edited in place, chart field by key) from a small pre-state that may already have been serialized once, symbolic key index (8 keys) and value <=3") for i in range(13) for r in range(2)],
+        *[dict(name=f"edit_step[op{i},k%2=={r}" + (f",pre_ser={ps}]" if ps is not None else "]"), func="edit_step",
+               pre=f"op == {i} and k % 2 == {r}" + (f" and pre_ser == {ps}" if ps is not None else ""), timeout=T,
+               bounds=f"edit operation {i} (of 13: set/del by key, attribute, charts appended/removed/replaced/reversed, extra components assigned and edited in place, chart field by key) from a small pre-state that may already have been serialized once, symbolic key index (8 keys) and value <=3")
+          for i in range(13) for r in range(2) for ps in ((False, True) if i in (8, 12) else (None,))],
         *[dict(name=f"autodetect[v{v},k%4=={r}]", func="autodetect", pre=f"v == {v} and k % 4 == {r}", timeout=T, bounds="first key symbolic index (not VERSION), concrete value incl. escapes, real tokenizer") for v in range(3) for r in range(4)],
         dict(name="blank_and_corpus", func="blank_and_corpus", timeout=T, bounds="SMSimfile.blank() and the SM corpus file"),
         *([dict(name="lexer_lemma[|v|<=1]", func="lexer_lemma", pre="len(v) <= 1", timeout=2 * T, bounds="dependency contract: str(MSDParameter(('K', v))) parses back to ('K', v) with the real serializer and lexer, any character outside the excluded gaps, |v| <= 1")]
@@ -42,9 +46,15 @@ def signature(ob, res):
 
 def replay(data):
     from vlib import xh
+    if data.get("func") == "ob_escapes":
+        from harness import escconf
+        return escconf.replay(data)
     return xh.replay("xh_C01", data)
 
 
 def main(tier):
-    return xhprop.main(PROP, tier, FILE, obligations(tier), FUNCTIONS, ASSUMPTIONS, OUTSIDE, signature, extra_chars=(1 if tier == "thorough" else 0),
+    from vlib import core
+    from harness import escconf
+    extra = core.run_obligations("harness.escconf", escconf.obligations("sm"))
+    return xhprop.main(PROP, tier, FILE, obligations(tier), FUNCTIONS, ASSUMPTIONS, OUTSIDE, signature, extra_results=extra, extra_chars=(1 if tier == "thorough" else 0),
                        bounds="strings <=3 (fields <=2), <=3 properties, <=2 charts, keys from the literal-derived key set")
